@@ -719,13 +719,14 @@ func showInJSON(env *env, out io.Writer, value any) error {
 		}
 		return err
 	case reflect.Slice:
-		if b, ok := value.([]byte); ok {
-			w := newStringWriter(out)
-			return escapeBytes(w, b, true)
-		}
 		if v.IsNil() {
 			s = "null"
 			break
+		}
+		if v.Type().Elem().Kind() == reflect.Uint8 {
+			// As encoding/json does, a slice of bytes, of any type, is
+			// encoded as a Base64 string and a nil slice as null.
+			return escapeBytes(w, v.Bytes(), true)
 		}
 		fallthrough
 	case reflect.Array:
